@@ -78,6 +78,13 @@ def alpha_value(a):
 
 def eval_block(mats, scale, via, dtype, alphas):
     """mats: int array (..., 2, 2) in base units.  Returns dict of result arrays."""
+    if dtype == "strict":
+        # the caller runs NumPy with floating-point errors raised instead of warned about: an undefined
+        # rate is still NaN (by masking), not an exception
+        with np.errstate(all="raise"):
+            return eval_block(mats, scale, via, "int", alphas)
+    if via == "cm2":
+        return eval_block_two_class(mats, scale, dtype, alphas)
     from score_analysis import ConfusionMatrix, metrics
     f = SCALES[scale]
     arr = np.asarray(mats)
@@ -106,6 +113,50 @@ def eval_block(mats, scale, via, dtype, alphas):
     return out
 
 
+MIRROR = {"tpr": "tnr", "fnr": "fpr", "tnr": "tpr", "fpr": "fnr", "ppv": "npv", "npv": "ppv", "fdr": "for_",
+          "for_": "fdr", "topr": "tonr", "tonr": "topr", "tar": "trr", "trr": "tar", "frr": "far", "far": "frr",
+          "acceptance_rate": "rejection_rate", "rejection_rate": "acceptance_rate",
+          "tp": "tn", "tn": "tp", "fn": "fp", "fp": "fn", "p": "n", "n": "p", "top": "ton", "ton": "top"}
+
+
+def eval_block_two_class(mats, scale, dtype, alphas):
+    """The same matrices as a (possibly stacked) TWO-CLASS, non-binary ConfusionMatrix: per-class results
+    have one more axis; class 0 as the positive class is the binary matrix itself, class 1 as the
+    positive class is its mirror image (tpr <-> tnr, ...).  Returned: class-0 values, after checking
+    that the class-1 values are bitwise the mirrored class-0 metric."""
+    from score_analysis import ConfusionMatrix
+    f = SCALES[scale]
+    arr = np.asarray(mats)
+    arr = arr.astype(float) * f if (scale in ("half", "tiny") or dtype == "float") else arr.astype(np.int64) * int(f)
+    cm = ConfusionMatrix(matrix=arr, classes=["c0", "c1"])
+    out = {"rates": {}, "ci": {}, "basic": {}}
+    both = {}
+    for r in RATES + BASIC:
+        if r in ("accuracy", "error_rate", "pop"):
+            v = np.asarray(getattr(cm, r)())
+            (out["rates"] if r in RATES else out["basic"])[r] = v if v.ndim else v[()]
+            continue
+        v = np.asarray(getattr(cm, r)())
+        if v.shape != arr.shape[:-2] + (2,):
+            raise AssertionError(f"per-class {r}: shape {v.shape}")
+        both[r] = v
+        (out["rates"] if r in RATES else out["basic"])[r] = v[..., 0] if v[..., 0].ndim else v[..., 0][()]
+    for r, v in both.items():
+        if not np.array_equal(v[..., 1], both[MIRROR[r]][..., 0], equal_nan=True):
+            raise AssertionError(f"class 1 as positive: {r} is not the mirrored {MIRROR[r]}")
+    for c in CIS:
+        out["ci"][c] = {}
+        for a in alphas:
+            v = np.asarray(getattr(cm, c + "_ci")(alpha=alpha_value(a)))
+            if v.shape != arr.shape[:-2] + (2, 2):
+                raise AssertionError(f"per-class {c}_ci: shape {v.shape}")
+            w = np.asarray(getattr(cm, MIRROR[c] + "_ci")(alpha=alpha_value(a)))
+            if not np.array_equal(v[..., 1, :], w[..., 0, :], equal_nan=True):
+                raise AssertionError(f"class 1 as positive: {c}_ci is not the mirrored {MIRROR[c]}_ci")
+            out["ci"][c][a] = v[..., 0, :]
+    return out
+
+
 def events(cases, alphas, ids, tier):
     evs = []
     M = np.array([[[c[0], c[1]], [c[2], c[3]]] for c in cases], dtype=np.int64)   # (n,2,2)
@@ -118,6 +169,7 @@ def events(cases, alphas, ids, tier):
                 if scale in ("half", "tiny") and dtype == "int":
                     continue
                 variants.append((scale, via, dtype))
+    variants += [("1", "metrics", "strict"), ("1", "cm", "strict"), ("1", "cm2", "int"), ("half", "cm2", "float")]
     for (scale, via, dtype) in variants:
         unit = 10**9 if scale == "big" else 10**6
         blocks = [("(n,)", M, (n,))]
